@@ -1,7 +1,808 @@
-//! C17 — not implemented yet.
-use vcore::Ctx;
+//! C17 — compile-time evaluation follows IEEE 1800 operator semantics.
+//!
+//! Code under test: `veryl_analyzer::value::Value` and
+//! `Op::eval_value_unary / eval_value_binary` (crates/analyzer/src/ir/op.rs),
+//! called with the `width` / `signed` arguments exactly as the real caller
+//! `Expression::eval_value` (crates/analyzer/src/ir/expression.rs) computes
+//! them, and the whole analyzer on generated `const` declarations.
+//! Oracle: `vbv`, a bit-vector model written from the LRM.
+//!
+//! Sub-checks
+//! * `exhaustive` — every operator × operand widths 1..=4 (quick and thorough)
+//!   × all 4-state operand values × signedness × a list of context widths
+//!   (own width, +1, +2, and 32/63/64/65/70 so that the same small operands
+//!   also go through the big-integer code).
+//! * `random`     — operand widths up to 256, corner-biased values, boundary
+//!   widths over-weighted; also relation 2: the result at a context ≤ 64 bits
+//!   equals the low bits of the result at a context > 64 bits whenever the
+//!   reference says the two must agree.
+//! * `valueops`   — `Value::expand / trunc / select / concat / assign`.
+//! * `lang`       — generated `const` expressions in a module, analysed by the
+//!   real analyzer, the evaluated constants read back from the IR.
+//!
+//! Caller contract honoured by the API-level generators (see `Contract`).
+//! Latitude (accepted either way, counted in the evidence): see
+//! `vbv::Latitude` — signed MIN / -1, `**` with operands of different
+//! signedness, an x/z sign bit being replicated, unary `+` on x/z; and the
+//! signedness *flag* carried by a result (DESIGN.md §6b).
 
-pub fn run(_ctx: &Ctx) {
-    println!("INCONCLUSIVE property=C17: check not implemented");
-    std::process::exit(2);
+use num_bigint::BigUint;
+use num_traits::ToPrimitive;
+use std::collections::BTreeMap;
+use std::sync::Mutex;
+use std::sync::atomic::{AtomicUsize, Ordering};
+use vbv::{BinClass, BinOp, Bit, Bv, Dialect, Latitude, UnOp};
+use vcore::{CaseCfg, Ctx, Draw, Outcome, hash_str, json};
+use veryl_analyzer::ir::Op;
+use veryl_analyzer::value::{MaskCache, Value, ValueBigUint, ValueU64};
+
+// ---------------------------------------------------------------------------
+// Bv <-> Value
+// ---------------------------------------------------------------------------
+
+pub fn to_value(b: &Bv) -> Value {
+    let (val, xz) = b.to_planes();
+    let w = b.width();
+    if w <= 64 {
+        Value::U64(ValueU64 {
+            payload: val.to_u64().unwrap(),
+            mask_xz: xz.to_u64().unwrap(),
+            width: w as u32,
+            signed: b.signed(),
+        })
+    } else {
+        Value::BigUint(ValueBigUint {
+            payload: Box::new(val),
+            mask_xz: Box::new(xz),
+            width: w as u32,
+            signed: b.signed(),
+        })
+    }
+}
+
+/// Decode a `Value`.  `Err` = the representation itself is broken (bits set
+/// at or above `width`), which would change what later operations compute.
+pub fn from_value(v: &Value) -> Result<Bv, String> {
+    let w = v.width();
+    let p: BigUint = v.payload().into_owned();
+    let m: BigUint = v.mask_xz().into_owned();
+    if p.bits() as usize > w || m.bits() as usize > w {
+        return Err(format!(
+            "payload/mask_xz have bits at or above width {w}: payload={p:#x} mask_xz={m:#x}"
+        ));
+    }
+    Ok(Bv::from_planes(&p, &m, w, v.signed()))
+}
+
+fn variant_consistent(v: &Value) -> bool {
+    match v {
+        Value::U64(x) => x.width <= 64,
+        Value::BigUint(x) => x.width > 64,
+    }
+}
+
+// ---------------------------------------------------------------------------
+// operator tables
+// ---------------------------------------------------------------------------
+
+pub const UN_OPS: [(UnOp, Op, &str); 10] = [
+    (UnOp::Plus, Op::Add, "+"),
+    (UnOp::Minus, Op::Sub, "-"),
+    (UnOp::BitNot, Op::BitNot, "~"),
+    (UnOp::RedAnd, Op::BitAnd, "&"),
+    (UnOp::RedNand, Op::BitNand, "~&"),
+    (UnOp::RedOr, Op::BitOr, "|"),
+    (UnOp::RedNor, Op::BitNor, "~|"),
+    (UnOp::RedXor, Op::BitXor, "^"),
+    (UnOp::RedXnor, Op::BitXnor, "~^"),
+    (UnOp::LogNot, Op::LogicNot, "!"),
+];
+
+/// (reference op, veryl op, Veryl source text)
+pub const BIN_OPS: [(BinOp, Op, &str); 24] = [
+    (BinOp::Add, Op::Add, "+"),
+    (BinOp::Sub, Op::Sub, "-"),
+    (BinOp::Mul, Op::Mul, "*"),
+    (BinOp::Div, Op::Div, "/"),
+    (BinOp::Rem, Op::Rem, "%"),
+    (BinOp::Pow, Op::Pow, "**"),
+    (BinOp::And, Op::BitAnd, "&"),
+    (BinOp::Or, Op::BitOr, "|"),
+    (BinOp::Xor, Op::BitXor, "^"),
+    (BinOp::Xnor, Op::BitXnor, "~^"),
+    (BinOp::Shl, Op::LogicShiftL, "<<"),
+    (BinOp::Shr, Op::LogicShiftR, ">>"),
+    (BinOp::AShl, Op::ArithShiftL, "<<<"),
+    (BinOp::AShr, Op::ArithShiftR, ">>>"),
+    (BinOp::Lt, Op::Less, "<:"),
+    (BinOp::Le, Op::LessEq, "<="),
+    (BinOp::Gt, Op::Greater, ">:"),
+    (BinOp::Ge, Op::GreaterEq, ">="),
+    (BinOp::Eq, Op::Eq, "=="),
+    (BinOp::Ne, Op::Ne, "!="),
+    (BinOp::WildEq, Op::EqWildcard, "==?"),
+    (BinOp::WildNe, Op::NeWildcard, "!=?"),
+    (BinOp::LogAnd, Op::LogicAnd, "&&"),
+    (BinOp::LogOr, Op::LogicOr, "||"),
+];
+
+fn is_relational(op: BinOp) -> bool {
+    matches!(op, BinOp::Lt | BinOp::Le | BinOp::Gt | BinOp::Ge)
+}
+
+/// The arguments the real caller passes (`Expression::eval_value`):
+/// * `width` — the node's `expr_context.width`: Table 11-21 of the operand
+///   widths, maximised with the outer context; ≥ 1 for comparison / logical /
+///   reduction results; the left operand's (and the outer) width for shifts
+///   and `**`.
+/// * `signed` — the node's `expr_context.signed`: "every context-determined
+///   operand is signed" (so it may be false although the operand values carry
+///   a signed flag, when an unsigned sibling made the context unsigned); for
+///   `/ % <: <= >: >=` it is taken from the two operands' contexts; for
+///   `== != ==? !=? && ||` and the reductions it is always false.
+/// * operand `Value`s arrive un-extended, with their own width and flag.
+pub struct Contract;
+
+impl Contract {
+    /// minimum legal `width` argument
+    pub fn min_width_bin(op: BinOp, wx: usize, wy: usize) -> usize {
+        match op.class() {
+            BinClass::Arith => wx.max(wy),
+            BinClass::ShiftPow => wx,
+            BinClass::Compare | BinClass::Logical => 1,
+        }
+    }
+    pub fn min_width_un(op: UnOp, wx: usize) -> usize {
+        if op.is_context() { wx } else { 1 }
+    }
+    /// legal `signed` arguments, simplest first
+    pub fn signed_args_bin(op: BinOp, sx: bool, sy: bool) -> Vec<bool> {
+        match op.class() {
+            BinClass::Arith => {
+                if sx && sy {
+                    vec![true, false]
+                } else {
+                    vec![false]
+                }
+            }
+            BinClass::ShiftPow => {
+                if sx {
+                    vec![true, false]
+                } else {
+                    vec![false]
+                }
+            }
+            BinClass::Compare if is_relational(op) => vec![sx && sy],
+            _ => vec![false],
+        }
+    }
+    pub fn signed_args_un(op: UnOp, sx: bool) -> Vec<bool> {
+        if op.is_context() && sx {
+            vec![true, false]
+        } else {
+            vec![false]
+        }
+    }
+}
+
+// ---------------------------------------------------------------------------
+// one evaluation against the reference
+// ---------------------------------------------------------------------------
+
+#[derive(Clone, Debug)]
+pub struct Mismatch {
+    pub sig: String,
+    pub msg: String,
+    pub input: serde_json::Value,
+}
+
+#[derive(Clone, Debug)]
+pub enum Verdict {
+    Ok { latitude: Vec<Latitude>, flag_differs: bool, variant_odd: bool },
+    /// the LRM does not constrain the result (signed MIN / -1)
+    Unconstrained,
+    Bad(Mismatch),
+}
+
+fn kind(b: &Bv, one_bit: bool) -> String {
+    if one_bit {
+        if b.bits().iter().skip(1).any(|x| *x != Bit::Zero) {
+            "ext".into()
+        } else {
+            b.bit(0).to_char().to_string()
+        }
+    } else if !b.has_xz() {
+        "num".into()
+    } else if b.bits().contains(&Bit::Z) {
+        "hasz".into()
+    } else if b.bits().iter().all(|x| *x == Bit::X) {
+        "allx".into()
+    } else {
+        "partx".into()
+    }
+}
+
+fn lat_name(l: Latitude) -> &'static str {
+    match l {
+        Latitude::SignedMinDivMinusOne => "signed_min_div_minus_one",
+        Latitude::PowMixedSign => "pow_mixed_sign",
+        Latitude::XzSignBit => "xz_sign_bit",
+        Latitude::UnaryPlusXz => "unary_plus_xz",
+    }
+}
+
+fn judge(
+    level: &str,
+    optext: &str,
+    one_bit: bool,
+    alternatives: &[Bv],
+    latitude: Vec<Latitude>,
+    actual: &Value,
+    describe: impl Fn() -> (String, serde_json::Value),
+) -> Verdict {
+    let expected = &alternatives[0];
+    let act = match from_value(actual) {
+        Ok(a) => a,
+        Err(e) => {
+            let (text, input) = describe();
+            return Verdict::Bad(Mismatch {
+                sig: format!("{level}:{optext}:stale-high-bits"),
+                msg: format!("{text}\n  expected {expected}\n  result value is malformed: {e}"),
+                input,
+            });
+        }
+    };
+    if act.width() != expected.width() {
+        let (text, input) = describe();
+        return Verdict::Bad(Mismatch {
+            sig: format!("{level}:{optext}:width"),
+            msg: format!("{text}\n  expected {expected}\n  got      {act} (width differs)"),
+            input,
+        });
+    }
+    if alternatives.iter().any(|a| a.bits() == act.bits()) {
+        return Verdict::Ok {
+            latitude,
+            flag_differs: act.signed() != expected.signed(),
+            variant_odd: !variant_consistent(actual),
+        };
+    }
+    let (text, input) = describe();
+    Verdict::Bad(Mismatch {
+        sig: format!("{level}:{optext}:{}->{}", kind(expected, one_bit), kind(&act, one_bit)),
+        msg: format!(
+            "{text}\n  IEEE 1800 value: {expected}{}\n  veryl computes : {act}",
+            if alternatives.len() > 1 {
+                format!(" (or, where the LRM leaves latitude: {})", alternatives[1..].iter().map(|a| a.to_string()).collect::<Vec<_>>().join(", "))
+            } else {
+                String::new()
+            }
+        ),
+        input,
+    })
+}
+
+pub fn check_binary(
+    (bop, vop, text): (BinOp, Op, &str),
+    x: &Bv,
+    y: &Bv,
+    w: usize,
+    signed_arg: bool,
+    mc: &mut MaskCache,
+) -> Verdict {
+    let e = vbv::binary(bop, x, y, Some(w), Some(signed_arg));
+    if e.latitude.contains(&Latitude::SignedMinDivMinusOne) {
+        return Verdict::Unconstrained;
+    }
+    let mut alts = vec![e.value];
+    if !e.latitude.is_empty() {
+        for d in Dialect::all() {
+            let v = vbv::binary_d(bop, x, y, Some(w), Some(signed_arg), &d).value;
+            if !alts.contains(&v) {
+                alts.push(v);
+            }
+        }
+    }
+    let actual = vop.eval_value_binary(&to_value(x), &to_value(y), w, signed_arg, mc);
+    let one_bit = matches!(bop.class(), BinClass::Compare | BinClass::Logical);
+    judge("api", text, one_bit, &alts, e.latitude, &actual, || {
+        (
+            format!("({x}) {text} ({y})  evaluated with width={w} signed={signed_arg}"),
+            json!({"kind": "binary", "op": text, "x": x.to_string(), "y": y.to_string(), "width": w, "signed": signed_arg}),
+        )
+    })
+}
+
+pub fn check_unary((uop, vop, text): (UnOp, Op, &str), x: &Bv, w: usize, signed_arg: bool, mc: &mut MaskCache) -> Verdict {
+    let e = vbv::unary(uop, x, Some(w), Some(signed_arg));
+    let mut alts = vec![e.value];
+    if !e.latitude.is_empty() {
+        for d in Dialect::all() {
+            let v = vbv::unary_d(uop, x, Some(w), Some(signed_arg), &d).value;
+            if !alts.contains(&v) {
+                alts.push(v);
+            }
+        }
+    }
+    let actual = vop.eval_value_unary(&to_value(x), w, signed_arg, mc);
+    judge("api", &format!("unary{text}"), !uop.is_context(), &alts, e.latitude, &actual, || {
+        (
+            format!("{text}({x})  evaluated with width={w} signed={signed_arg}"),
+            json!({"kind": "unary", "op": text, "x": x.to_string(), "width": w, "signed": signed_arg}),
+        )
+    })
+}
+
+pub fn parse_bv(s: &str) -> Option<Bv> {
+    let (w, rest) = s.split_once('\'')?;
+    let signed = rest.starts_with('s');
+    let digits = rest.trim_start_matches('s').strip_prefix('b')?;
+    let v = Bv::from_msb_str(digits, signed)?;
+    if v.width() != w.parse::<usize>().ok()? {
+        return None;
+    }
+    Some(v)
+}
+
+/// Re-run one recorded API-level evaluation (replay files / known findings).
+fn replay_api(p: &serde_json::Value) -> Outcome {
+    let get = |k: &str| p.get(k).and_then(|v| v.as_str()).unwrap_or("").to_string();
+    let w = p.get("width").and_then(|v| v.as_u64()).unwrap_or(1) as usize;
+    let s = p.get("signed").and_then(|v| v.as_bool()).unwrap_or(false);
+    let mut mc = MaskCache::default();
+    let verdict = match get("kind").as_str() {
+        "binary" => {
+            let Some(op) = BIN_OPS.iter().find(|o| o.2 == get("op")) else {
+                return Outcome::skip("unknown operator in payload");
+            };
+            let (Some(x), Some(y)) = (parse_bv(&get("x")), parse_bv(&get("y"))) else {
+                return Outcome::skip("malformed operand in payload");
+            };
+            check_binary(*op, &x, &y, w, s, &mut mc)
+        }
+        "unary" => {
+            let Some(op) = UN_OPS.iter().find(|o| o.2 == get("op")) else {
+                return Outcome::skip("unknown operator in payload");
+            };
+            let Some(x) = parse_bv(&get("x")) else {
+                return Outcome::skip("malformed operand in payload");
+            };
+            check_unary(*op, &x, w, s, &mut mc)
+        }
+        _ => return Outcome::skip("not an api payload"),
+    };
+    match verdict {
+        Verdict::Bad(m) => Outcome::fail(m.sig, m.msg, m.input),
+        _ => Outcome::pass(hash_str(&p.to_string()), true, vec!["replayed".into()], p.to_string()),
+    }
+}
+
+// ---------------------------------------------------------------------------
+// sub-check: exhaustive
+// ---------------------------------------------------------------------------
+
+/// All 4-state vectors of width `w`.
+fn all_values(w: usize, signed: bool) -> Vec<Bv> {
+    let n = 4usize.pow(w as u32);
+    (0..n)
+        .map(|mut k| {
+            let mut bits = Vec::with_capacity(w);
+            for _ in 0..w {
+                bits.push(Bit::ALL[k % 4]);
+                k /= 4;
+            }
+            Bv::new(bits, signed)
+        })
+        .collect()
+}
+
+#[derive(Clone, Debug)]
+enum Cfg {
+    Bin { op: usize, wx: usize, wy: usize, sx: bool, sy: bool, w: usize, signed: bool },
+    Un { op: usize, wx: usize, sx: bool, w: usize, signed: bool },
+}
+
+#[derive(Default)]
+struct CfgResult {
+    evaluations: u64,
+    unconstrained: u64,
+    latitude: BTreeMap<&'static str, u64>,
+    flag_differs: u64,
+    variant_odd: u64,
+    /// first mismatch of each signature, and how many
+    bad: BTreeMap<String, (Mismatch, u64)>,
+}
+
+impl CfgResult {
+    fn take(&mut self, v: Verdict) {
+        self.evaluations += 1;
+        match v {
+            Verdict::Ok { latitude, flag_differs, variant_odd } => {
+                for l in latitude {
+                    *self.latitude.entry(lat_name(l)).or_insert(0) += 1;
+                }
+                self.flag_differs += flag_differs as u64;
+                self.variant_odd += variant_odd as u64;
+            }
+            Verdict::Unconstrained => self.unconstrained += 1,
+            Verdict::Bad(m) => {
+                let e = self.bad.entry(m.sig.clone()).or_insert((m, 0));
+                e.1 += 1;
+            }
+        }
+    }
+}
+
+fn context_widths(base: usize, full: bool) -> Vec<usize> {
+    let mut v = vec![base, base + 1, 64, 65];
+    if full {
+        v.extend([base + 2, 7, 32, 63, 70]);
+    }
+    v.retain(|w| *w >= base);
+    v.sort();
+    v.dedup();
+    v
+}
+
+fn run_cfg(c: &Cfg, mc: &mut MaskCache) -> CfgResult {
+    let mut r = CfgResult::default();
+    match *c {
+        Cfg::Bin { op, wx, wy, sx, sy, w, signed } => {
+            let xs = all_values(wx, sx);
+            let ys = all_values(wy, sy);
+            for x in &xs {
+                for y in &ys {
+                    r.take(check_binary(BIN_OPS[op], x, y, w, signed, mc));
+                }
+            }
+        }
+        Cfg::Un { op, wx, sx, w, signed } => {
+            for x in &all_values(wx, sx) {
+                r.take(check_unary(UN_OPS[op], x, w, signed, mc));
+            }
+        }
+    }
+    r
+}
+
+fn exhaustive(ctx: &Ctx) {
+    let maxw = 4;
+    let full = !ctx.is_quick();
+    let mut cfgs = vec![];
+    for (i, (bop, _, _)) in BIN_OPS.iter().enumerate() {
+        for wx in 1..=maxw {
+            for wy in 1..=maxw {
+                for sx in [false, true] {
+                    for sy in [false, true] {
+                        for w in context_widths(Contract::min_width_bin(*bop, wx, wy), full) {
+                            for signed in Contract::signed_args_bin(*bop, sx, sy) {
+                                cfgs.push(Cfg::Bin { op: i, wx, wy, sx, sy, w, signed });
+                            }
+                        }
+                    }
+                }
+            }
+        }
+    }
+    for (i, (uop, _, _)) in UN_OPS.iter().enumerate() {
+        for wx in 1..=maxw + 2 {
+            for sx in [false, true] {
+                for w in context_widths(Contract::min_width_un(*uop, wx), true) {
+                    for signed in Contract::signed_args_un(*uop, sx) {
+                        cfgs.push(Cfg::Un { op: i, wx, sx, w, signed });
+                    }
+                }
+            }
+        }
+    }
+    let next = AtomicUsize::new(0);
+    let results: Mutex<Vec<(usize, CfgResult)>> = Mutex::new(vec![]);
+    let threads = std::thread::available_parallelism().map(|n| n.get()).unwrap_or(8);
+    std::thread::scope(|s| {
+        for _ in 0..threads {
+            s.spawn(|| {
+                let mut mc = MaskCache::default();
+                let mut local = vec![];
+                loop {
+                    let i = next.fetch_add(1, Ordering::Relaxed);
+                    if i >= cfgs.len() {
+                        break;
+                    }
+                    local.push((i, run_cfg(&cfgs[i], &mut mc)));
+                }
+                results.lock().unwrap().extend(local);
+            });
+        }
+    });
+    let mut results = results.into_inner().unwrap();
+    results.sort_by_key(|r| r.0);
+    let mut total = 0u64;
+    for (i, r) in results {
+        let c = &cfgs[i];
+        let desc = format!("{c:?}");
+        total += r.evaluations;
+        ctx.note_add("exhaustive_unconstrained_min_div_minus_one", r.unconstrained);
+        ctx.note_add("result_signed_flag_differs_from_lrm_type", r.flag_differs);
+        ctx.note_add("result_variant_not_matching_width", r.variant_odd);
+        for (k, n) in &r.latitude {
+            ctx.note_add(&format!("latitude_{k}"), *n);
+        }
+        let (optext, class) = match c {
+            Cfg::Bin { op, w, .. } => (BIN_OPS[*op].2.to_string(), if *w > 64 { "ctx>64" } else { "ctx<=64" }),
+            Cfg::Un { op, w, .. } => (format!("unary{}", UN_OPS[*op].2), if *w > 64 { "ctx>64" } else { "ctx<=64" }),
+        };
+        if r.bad.is_empty() {
+            ctx.record(
+                "exhaustive",
+                Outcome::pass(
+                    hash_str(&desc),
+                    true,
+                    vec![format!("exh:{optext}"), format!("exh:{class}")],
+                    format!("{desc}: {} operand combinations", r.evaluations),
+                ),
+                json!(null),
+            );
+        }
+        for (_, (m, n)) in r.bad {
+            let msg = format!("{}\n  ({n} operand combinations of {desc} fail this way)", m.msg);
+            ctx.record("api", Outcome::fail(m.sig, msg, m.input.clone()), m.input);
+        }
+    }
+    ctx.note("exhaustive_operand_combinations", json!(total));
+    ctx.note("exhaustive_max_operand_width", json!(maxw));
+    ctx.set_exhaustive(true);
+}
+
+// ---------------------------------------------------------------------------
+// sub-check: random (wide operands, boundary widths) + relation 2
+// ---------------------------------------------------------------------------
+
+const BOUNDARY: [usize; 11] = [31, 32, 33, 63, 64, 65, 127, 128, 129, 255, 256];
+
+fn draw_width(d: &mut Draw) -> usize {
+    match d.weighted(&[3, 6, 2]) {
+        0 => d.usize_in(1, 8),
+        1 => *d.pick(&BOUNDARY),
+        _ => d.usize_in(1, 256),
+    }
+}
+
+fn words_to_big(w: &[u64]) -> BigUint {
+    let mut v = BigUint::default();
+    for (i, x) in w.iter().enumerate() {
+        v |= BigUint::from(*x) << (64 * i);
+    }
+    v
+}
+
+pub fn draw_bv(d: &mut Draw, w: usize, signed: bool) -> Bv {
+    let val = words_to_big(&d.corner_bits(w));
+    let xz = match d.weighted(&[6, 2, 1, 1]) {
+        0 => BigUint::default(),
+        1 => BigUint::from(1u8) << d.usize_in(0, w - 1),
+        2 => words_to_big(&d.corner_bits(w)),
+        _ => words_to_big(&d.bits(w)) & words_to_big(&d.bits(w)),
+    };
+    Bv::from_planes(&val, &xz, w, signed)
+}
+
+/// small non-negative number as a vector (shift amounts, exponents)
+fn draw_small(d: &mut Draw, around: usize) -> Bv {
+    let cands = [0usize, 1, 2, 3, around.saturating_sub(1), around, around + 1, 63, 64, 65, 5, 31, 32, 33, 127, 128, 255, 256, 300];
+    let v = *d.pick(&cands);
+    let w = d.usize_in(9, 12).max(1);
+    Bv::from_u64(v as u64, w, d.chance(1, 4))
+}
+
+fn draw_ctx_width(d: &mut Draw, base: usize) -> usize {
+    match d.weighted(&[4, 2, 3]) {
+        0 => base,
+        1 => base + d.usize_in(1, 3),
+        _ => (*d.pick(&BOUNDARY)).max(base),
+    }
+}
+
+fn random_case(d: &mut Draw) -> Outcome {
+    let mut mc = MaskCache::default();
+    let mut classes: Vec<String> = vec![];
+    let unary = d.chance(1, 5);
+    if unary {
+        let op = *d.pick(&UN_OPS);
+        let wx = draw_width(d);
+        let sx = d.bool();
+        let x = draw_bv(d, wx, sx);
+        let w = draw_ctx_width(d, Contract::min_width_un(op.0, wx));
+        let signed = *d.pick(&Contract::signed_args_un(op.0, sx));
+        let text = format!("{}({x}) width={w} signed={signed}", op.2);
+        classes.push(format!("op:unary{}", op.2));
+        classify(&mut classes, &[&x], w);
+        let nt = BOUNDARY.contains(&wx) || BOUNDARY.contains(&w) || x.has_xz();
+        return match check_unary(op, &x, w, signed, &mut mc) {
+            Verdict::Bad(m) => Outcome::fail(m.sig, m.msg, m.input),
+            Verdict::Unconstrained => Outcome::skip("LRM leaves the result open"),
+            Verdict::Ok { latitude, flag_differs, .. } => {
+                for l in latitude {
+                    classes.push(format!("latitude:{}", lat_name(l)));
+                }
+                if flag_differs {
+                    classes.push("result_signed_flag_differs".into());
+                }
+                Outcome::pass(hash_str(&text), nt, classes, text)
+            }
+        };
+    }
+    let op = *d.pick(&BIN_OPS);
+    let wx = draw_width(d);
+    let sx = d.bool();
+    let sy = d.bool();
+    let x = draw_bv(d, wx, sx);
+    let y = if op.0.class() == BinClass::ShiftPow && d.chance(3, 4) {
+        draw_small(d, wx)
+    } else {
+        let wy = if d.chance(1, 2) { wx } else { draw_width(d) };
+        // equal operands now and then (== / - / / corner cases)
+        if wy == wx && d.chance(1, 6) { x.with_signed(sy) } else { draw_bv(d, wy, sy) }
+    };
+    let sy = y.signed();
+    let w = draw_ctx_width(d, Contract::min_width_bin(op.0, wx, y.width()));
+    let signed = *d.pick(&Contract::signed_args_bin(op.0, sx, sy));
+    let text = format!("({x}) {} ({y}) width={w} signed={signed}", op.2);
+    classes.push(format!("op:{}", op.2));
+    classify(&mut classes, &[&x, &y], w);
+    let nt = BOUNDARY.contains(&wx) || BOUNDARY.contains(&y.width()) || BOUNDARY.contains(&w) || x.has_xz() || y.has_xz();
+    match check_binary(op, &x, &y, w, signed, &mut mc) {
+        Verdict::Bad(m) => return Outcome::fail(m.sig, m.msg, m.input),
+        Verdict::Unconstrained => return Outcome::skip("LRM leaves the result open (signed MIN / -1)"),
+        Verdict::Ok { latitude, flag_differs, .. } => {
+            for l in latitude {
+                classes.push(format!("latitude:{}", lat_name(l)));
+            }
+            if flag_differs {
+                classes.push("result_signed_flag_differs".into());
+            }
+        }
+    }
+    // relation 2: the ≤64-bit and the big-integer code agree
+    if w <= 64 {
+        let w2 = *d.pick(&[65usize, 66, 100, 128, 129]);
+        let e1 = vbv::binary(op.0, &x, &y, Some(w), Some(signed));
+        let e2 = vbv::binary(op.0, &x, &y, Some(w2), Some(signed));
+        let must_agree = e1.latitude.is_empty() && e2.latitude.is_empty() && e2.value.truncate(w).bits() == e1.value.bits();
+        if must_agree {
+            classes.push("rel2:compared".into());
+            let r1 = op.1.eval_value_binary(&to_value(&x), &to_value(&y), w, signed, &mut mc);
+            let r2 = op.1.eval_value_binary(&to_value(&x), &to_value(&y), w2, signed, &mut mc);
+            let (b1, b2) = (from_value(&r1), from_value(&r2));
+            if let (Ok(b1), Ok(b2)) = (b1, b2)
+                && b2.truncate(w).bits() != b1.bits()
+            {
+                return Outcome::fail(
+                    format!("rel2:{}:u64-vs-biguint", op.2),
+                    format!("{text}\n  at width {w} (64-bit code): {b1}\n  at width {w2} (big-integer code), low {w} bits: {}\n  IEEE 1800: both {}", b2.truncate(w), e1.value),
+                    json!({"kind": "binary", "op": op.2, "x": x.to_string(), "y": y.to_string(), "width": w, "width2": w2, "signed": signed}),
+                );
+            }
+        } else {
+            classes.push("rel2:context-dependent".into());
+        }
+    }
+    Outcome::pass(hash_str(&text), nt, classes, text)
+}
+
+fn classify(classes: &mut Vec<String>, ops: &[&Bv], w: usize) {
+    if ops.iter().any(|o| o.width() > 64) || w > 64 {
+        classes.push("wide(>64)".into());
+    }
+    if ops.iter().any(|o| BOUNDARY.contains(&o.width())) || BOUNDARY.contains(&w) {
+        classes.push("boundary_width".into());
+    }
+    if ops.iter().any(|o| o.has_xz()) {
+        classes.push("xz_operand".into());
+    }
+    if ops.iter().any(|o| o.signed()) {
+        classes.push("signed_operand".into());
+    }
+    if ops.iter().all(|o| o.width() <= 64) && w > 64 {
+        classes.push("narrow_operands_wide_context".into());
+    }
+}
+
+// ---------------------------------------------------------------------------
+// sub-check: Value::expand / trunc / select / concat / assign
+// ---------------------------------------------------------------------------
+
+fn valueops_case(d: &mut Draw) -> Outcome {
+    let w = draw_width(d);
+    let signed = d.bool();
+    let x = draw_bv(d, w, signed);
+    let vx = to_value(&x);
+    let which = d.below(5);
+    let (name, text, expected, actual): (&str, String, Bv, Value) = match which {
+        0 => {
+            // expand(width, use_sign): wider, sign-extended iff the value is signed and use_sign
+            let to = draw_ctx_width(d, w);
+            let use_sign = d.bool();
+            let e = x.extend(to, use_sign && signed);
+            (
+                "expand",
+                format!("({x}).expand({to}, {use_sign})"),
+                e,
+                vx.expand(to, use_sign).into_owned(),
+            )
+        }
+        1 => {
+            let to = d.usize_in(1, w);
+            let mut v = vx.clone();
+            v.trunc(to);
+            ("trunc", format!("({x}).trunc({to})"), x.truncate(to), v)
+        }
+        2 => {
+            // in-range select (callers reject out-of-range selects)
+            let end = d.usize_in(0, w - 1);
+            let beg = d.usize_in(end, w - 1);
+            ("select", format!("({x}).select({beg}, {end})"), x.part_select(beg, end), vx.select(beg, end))
+        }
+        3 => {
+            let wy = draw_width(d);
+            let y = draw_bv(d, wy, d.bool());
+            ("concat", format!("({x}).concat({y})"), x.concat(&y), vx.concat(&to_value(&y)))
+        }
+        _ => {
+            // in-range assign of a slice; the written value is as wide as the slice
+            let end = d.usize_in(0, w - 1);
+            let beg = d.usize_in(end, w - 1);
+            let y = draw_bv(d, beg - end + 1, d.bool());
+            let mut v = vx.clone();
+            v.assign(to_value(&y), beg, end);
+            ("assign", format!("({x}).assign({y}, {beg}, {end})"), x.part_assign(beg, end, &y), v)
+        }
+    };
+    let mut classes = vec![format!("valueop:{name}")];
+    classify(&mut classes, &[&x, &expected], 0);
+    let crosses = (w <= 64) != (expected.width() <= 64);
+    if crosses {
+        classes.push("crosses_64".into());
+    }
+    match from_value(&actual) {
+        Err(e) => Outcome::fail(format!("value:{name}:stale-high-bits"), format!("{text}: {e}"), json!({"op": text})),
+        Ok(a) => {
+            if a.width() != expected.width() || a.bits() != expected.bits() {
+                Outcome::fail(
+                    format!("value:{name}:{}", if a.width() != expected.width() { "width" } else { "bits" }),
+                    format!("{text}\n  expected {expected}\n  got      {a}"),
+                    json!({"op": text}),
+                )
+            } else if !variant_consistent(&actual) {
+                Outcome::fail(
+                    format!("value:{name}:variant"),
+                    format!("{text}: result of width {} is held in the {} variant (every operator matches on (U64,U64)/(BigUint,BigUint) and panics on a mix)", a.width(), if a.width() <= 64 { "BigUint" } else { "U64" }),
+                    json!({"op": text}),
+                )
+            } else {
+                Outcome::pass(hash_str(&text), BOUNDARY.contains(&w) || x.has_xz() || crosses, classes, text)
+            }
+        }
+    }
+}
+
+// ---------------------------------------------------------------------------
+
+pub fn run(ctx: &Ctx) {
+    ctx.run_payloads("api", replay_api);
+    if !ctx.replay_mode() {
+        exhaustive(ctx);
+    }
+    let n = ctx.scale(200_000, 5_000_000);
+    ctx.run("random", CaseCfg::cases(n).choices(200).same_thread(), random_case);
+    let n = ctx.scale(60_000, 1_500_000);
+    ctx.run("valueops", CaseCfg::cases(n).choices(120).same_thread(), valueops_case);
+    crate::c17lang::run(ctx);
+
+    ctx.assume("vbv (harness/vbv) is the reading of IEEE 1800-2017 clause 11 the results are compared with");
+    ctx.assume("API level: width/signed arguments restricted to what Expression::eval_value passes (c17.rs `Contract`); operands not wider than the context (no narrowing `as`)");
+    ctx.assume("accepted either way and counted: signed MIN / -1, `**` with mixed operand signedness, replicated x/z sign bit, unary + on x/z, the signed flag of a result value");
+    ctx.finish(
+        "exploration",
+        "exhaustive: every operator x operand widths 1..4 (unary 1..6) x all 4-state values x signedness x context widths (own, +1, 64, 65; thorough also +2, 7, 32, 63, 70), one evidence case per configuration; random: operand widths 1..256 with 31/32/33/63/64/65/127/128/129/255/256 over-weighted, corner-biased values and x/z masks; lang: generated const expressions through the real analyzer. non-trivial = an operand or the context uses a boundary width, or an operand has x/z; distinct by case text",
+    );
 }
